@@ -35,20 +35,21 @@ type c08Client struct {
 }
 
 type c08Env struct {
-	ctx         *Ctx
-	be          *fb.Backend
-	env         *px.Env
-	cs          []c08Client
-	n           int
-	ring        []int
-	cursor      int
-	seq         int
-	stream      int16
-	cached      map[string]bool   // statement text -> the proxy saw its PREPARE succeed
-	ids         map[string][]byte // statement text -> id
-	prepBad     map[int]bool      // hosts refusing PREPARE
-	payloadNext bool              // the next frame sent carries a custom payload
-	detail      string
+	ctx               *Ctx
+	be                *fb.Backend
+	env               *px.Env
+	cs                []c08Client
+	n                 int
+	ring              []int
+	cursor            int
+	seq               int
+	stream            int16
+	cached            map[string]bool   // statement text -> the proxy saw its PREPARE succeed
+	ids               map[string][]byte // statement text -> id
+	prepBad           map[int]bool      // hosts refusing PREPARE
+	payloadNext       bool              // the next frame sent carries a custom payload
+	tracedPrepareNext bool              // the next PREPARE asks for tracing
+	detail            string
 }
 
 func (e *c08Env) close() {
@@ -185,7 +186,13 @@ func (e *c08Env) prepare(ci int, q string) bool {
 		e.payloadNext = true
 		e.ctx.Count("prepare-with-custom-payload")
 	}
-	_, f := e.send(ci, &message.Prepare{Query: q})
+	// one in four asks for tracing: the cached frame, and so every re-PREPARE made from it, then does too
+	tracing := e.tracedPrepareNext || e.ctx.Rng.Intn(4) == 0
+	e.tracedPrepareNext = false
+	if tracing {
+		e.ctx.Count("prepare-with-tracing")
+	}
+	_, f := e.sendFlags(ci, &message.Prepare{Query: q}, tracing)
 	e.cursor++
 	if f == nil || f.Opcode != byte(primitive.OpCodeResult) {
 		return false
@@ -402,6 +409,7 @@ func c08PayloadAcrossVersions(ctx *Ctx) {
 	for i, ci := range preparers {
 		q := c08Stmts[i]
 		e.payloadNext = true
+		e.tracedPrepareNext = i == 1
 		if !e.prepare(ci, q) {
 			continue
 		}
